@@ -23,6 +23,7 @@ TEXT = {
     "pointwise-lift": "a function built from numpy element-wise operations that is pointwise on a 2-point grid is pointwise on every grid",
     "callee-contract": "modular step: the callee is replaced by its contract (free atoms constrained only by its post-condition)",
     # externals
+    "np.indices": "np.indices(n).transpose(1,2,3,0).reshape(-1,3) lists every integer triple 0 <= m_c < n_c exactly once (C order)",
     "fft": "scipy.fft.fftn/ifftn (and torch.fft) multiply by the DFT matrix with the documented norm scalings on the given axes",
     "sqrtm": "scipy.linalg.sqrtm of a Hermitian positive matrix returns the principal root S: S S = A, S^H = S, S commutes with A",
     "inv": "linalg.inv returns the two-sided inverse of a non-singular matrix",
